@@ -126,21 +126,43 @@ def gen_case(rng, fn, big):
     if fn == "pagerank_edges":
         r = rng.random()
         case["damping"] = rng.choice([0.85, 0.85, 0.5, 0.9, 0.3, 0.7])
-        case["tol"] = rng.choice([1e-6, 1e-6, 1e-4, 1e-8, 1e-3, 1e-10])
-        case["max_iter"] = 100 if r < 0.4 else rng.choice([1, 2, 3, 5, 8, 12, 20, 30, 50, 80, 150, 400, 1000])
-        if rng.random() < 0.3:
+        case["tol"] = rng.choice([1e-6, 1e-6, 1e-4, 1e-8, 1e-3, 1e-9])
+        if r < 0.3:
+            case["max_iter"] = 100
+        elif r < 0.6:
+            case["max_iter"] = rng.choice([1, 2, 3, 5, 8, 12, 20, 30, 50, 80, 150, 400, 1000])
+        else:  # at / next to the iteration where the max-norm criterion first holds (steers generation only)
+            k = _pr_iters(n, es, case["damping"], case["tol"])
+            case["max_iter"] = max(1, k + rng.choice([0, 0, 0, 1, 2, -1]))
+        if rng.random() < 0.25:
             case["defaults"] = True  # call without damping/tol/max_iter keywords
-            case["damping"], case["tol"], case["max_iter"] = 0.85, 1e-6, 100
+            for k in ("damping", "tol", "max_iter"):
+                case.pop(k)
     return case
 
 
+def _pr_iters(n, es, d, tol, cap=3000):
+    """Float PageRank iteration count until max |change| < tol (used to pick max_iter, never to judge)."""
+    if n == 0:
+        return 1
+    out = [0] * n
+    for u, _ in es:
+        out[u] += 1
+    x = [1.0 / n] * n
+    for it in range(1, cap + 1):
+        dang = sum(x[u] for u in range(n) if out[u] == 0)
+        y = [(1.0 - d) / n + d * dang / n] * n
+        for u, v in es:
+            y[v] += d * x[u] / out[u]
+        diff = max(abs(a - b) for a, b in zip(x, y))
+        x = y
+        if diff < tol:
+            return it
+    return cap
+
+
 def edge_cases():
-    # the three defects read in DESIGN §4 C12, as minimal inputs
-    yield {"fn": "floyd_warshall", "n": 2, "edges": [[0, 1, 20], [0, 1, 8]], "directed": False, "int_weights": False}
-    yield {"fn": "floyd_warshall", "n": 2, "edges": [[0, 1, 20], [1, 0, 8]], "directed": False, "int_weights": True}
-    yield {"fn": "bfs_edges", "n": 3, "edges": [[0, 2], [0, 1]], "s": 0, "t": None, "int_weights": False}
-    yield {"fn": "dfs_edges", "n": 3, "edges": [[0, 2], [2, 1]], "s": 0, "t": None, "int_weights": False}
-    yield {"fn": "dfs_edges", "n": 2, "edges": [[0, 1]], "s": 0, "t": 1, "int_weights": False}
+    # (the defect witnesses of DESIGN §4 C12 live in corpus/C12/)
     # plain sanity cases
     yield {"fn": "floyd_warshall", "n": 3, "edges": [[0, 1, 4], [1, 2, -8], [2, 0, 2]], "directed": True,
            "int_weights": False}
@@ -153,8 +175,7 @@ def edge_cases():
     yield {"fn": "kruskal", "n": 3, "edges": [[0, 1, 4], [1, 2, 8], [0, 2, 12]], "allow_forest": False,
            "int_weights": False}
     yield {"fn": "kruskal", "n": 3, "edges": [[0, 1, 4]], "allow_forest": True, "int_weights": False}
-    yield {"fn": "pagerank_edges", "n": 3, "edges": [[0, 1], [1, 2], [2, 0]], "damping": 0.85, "tol": 1e-6,
-           "max_iter": 100, "defaults": True, "int_weights": False}
+    yield {"fn": "pagerank_edges", "n": 3, "edges": [[0, 1], [1, 2], [2, 0]], "defaults": True, "int_weights": False}
     yield {"fn": "pagerank_edges", "n": 0, "edges": [], "damping": 0.85, "tol": 1e-6, "max_iter": 100,
            "int_weights": False}
     yield {"fn": "strongly_connected_components_edges", "n": 4, "edges": [[0, 1], [1, 2], [2, 0], [2, 3]],
@@ -240,14 +261,22 @@ def _call(case, backend):
         obj = _q(r.objective)
     elif fn == "pagerank_edges":
         from solvor.pagerank import pagerank_edges
+        alt = []
         if case.get("defaults"):
+            import inspect
             r = pagerank_edges(n, es, **kw)
+            tol0 = inspect.signature(getattr(pagerank_edges, "__wrapped__", pagerank_edges)).parameters["tol"].default
+            for f in (1 - 1e-6, 1 + 1e-6):
+                alt.append(pagerank_edges(n, es, tol=tol0 * f, **kw).status.name)
         else:
             r = pagerank_edges(n, es, damping=case["damping"], max_iter=case["max_iter"], tol=case["tol"], **kw)
+            for f in (1 - 1e-6, 1 + 1e-6):  # statuses under a slightly perturbed tolerance (rounding guard)
+                alt.append(pagerank_edges(n, es, damping=case["damping"], max_iter=case["max_iter"],
+                                          tol=case["tol"] * f, **kw).status.name)
         if sorted(r.solution.keys()) != list(range(n)):
             raise KeyError(f"score keys {sorted(r.solution.keys())}")
         sol = [core.rat(float(r.solution[i])) for i in range(n)]
-        obj = None
+        return {"status": r.status.name, "sol": sol, "obj": None, "alt": alt, "objraw": repr(float(r.objective))}
     elif fn == "strongly_connected_components_edges":
         from solvor.scc import strongly_connected_components_edges
         r = strongly_connected_components_edges(n, es, **kw)
@@ -260,7 +289,7 @@ def _call(case, backend):
         obj = None
     else:
         raise ValueError(fn)
-    return {"status": r.status.name, "sol": sol, "obj": obj}
+    return {"status": r.status.name, "sol": sol, "obj": obj, "objraw": repr(float(r.objective))}
 
 
 def _sssp(case, r):
@@ -287,6 +316,11 @@ def impl(case):
         out["omit"] = ["ok", _call(case, "omit")]
     except BaseException as e:  # noqa: BLE001
         out["omit"] = ["err", f"{type(e).__name__}: {e}"[:300]]
+    if case["fn"] == "pagerank_edges":
+        import inspect
+        from solvor.pagerank import pagerank_edges
+        sig = inspect.signature(getattr(pagerank_edges, "__wrapped__", pagerank_edges))
+        out["pr_defaults"] = [sig.parameters[k].default for k in ("damping", "tol", "max_iter")]
     if case["fn"] in ("bfs_edges", "dfs_edges") and case["t"] is None:
         import solvor._solvor_rust as rs
         k = rs.bfs if case["fn"] == "bfs_edges" else rs.dfs
@@ -377,12 +411,12 @@ def well_formed(case, o):
     return False
 
 
-def pagerank_fixed(case):
-    """Exact PageRank vector (Gaussian elimination over Fractions) for the doubles `damping` as given."""
+def pagerank_fixed(case, damping):
+    """Exact PageRank vector (Gaussian elimination over Fractions) for the double `damping` as given."""
     n = case["n"]
     if n == 0:
         return []
-    d = Fraction(case["damping"])
+    d = Fraction(damping)
     out = [0] * n
     for u, _ in case["edges"]:
         out[u] += 1
@@ -410,8 +444,8 @@ def pagerank_fixed(case):
     return b
 
 
-def to_request(case, outs):
-    """outs: list of distinct well-formed outputs."""
+def to_request(case, outs, out=None):
+    """outs: list of distinct well-formed outputs; out: the raw pool outcome (PageRank defaults)."""
     fn, n, es = case["fn"], case["n"], _wes(case)
     enc = [encode_out(case, o) for o in outs]
     if fn == "floyd_warshall":
@@ -431,8 +465,11 @@ def to_request(case, outs):
     if fn == "kruskal":
         return ["mst", n, es, bool(case["allow_forest"]), enc]
     if fn == "pagerank_edges":
-        return ["pagerank", n, es, core.rat(case["damping"]), core.rat(case["tol"]),
-                [core.rat(x) for x in pagerank_fixed(case)], enc]
+        damping, tol = case.get("damping"), case.get("tol")
+        if case.get("defaults"):  # the python function's own defaults, read from its signature in the worker
+            damping, tol = (out[1]["pr_defaults"][:2] if out and out[0] == "ok" else (0.85, 1e-6))
+        return ["pagerank", n, es, core.rat(damping), core.rat(tol),
+                [core.rat(x) for x in pagerank_fixed(case, damping)], enc]
     if fn == "strongly_connected_components_edges":
         return ["scc", n, es, enc]
     if fn == "topological_sort_edges":
@@ -502,6 +539,11 @@ def verdicts(case, reply, k):
     return reply[1][k], {}
 
 
+def _fail(ctx, fn, klass, what, rep):
+    ctx.count(f"fail:{fn}:{klass}")
+    return ctx.fail(fn, klass, what, rep)
+
+
 def judge(ctx, case, out, outs, idx, reply):
     fn = case["fn"]
     rep = {"case": case, "impl": out, "model": reply}
@@ -510,17 +552,17 @@ def judge(ctx, case, out, outs, idx, reply):
         (":undirected" if case.get("directed") is False else "")
     ctx.count("fn:" + mode)
     if out[0] != "ok":
-        ctx.fail(fn, "raises:" + err_kind(out), f"worker failed: {out[1]}", rep)
+        _fail(ctx, fn, "raises:" + err_kind(out), f"worker failed: {out[1]}", rep)
         return
     res = out[1]
     ok_all = True
     for b in ("python", "rust", "None", "omit"):
         r = res[b]
         if r[0] != "ok":
-            ctx.fail(fn, f"raises:{r[1].split(':', 1)[0]}:{b}", f"backend={b} raised on a valid input: {r[1]}", rep)
+            _fail(ctx, fn, f"raises:{r[1].split(':', 1)[0]}:{b}", f"backend={b} raised on a valid input: {r[1]}", rep)
             ok_all = False
         elif idx.get(b) is None:
-            ctx.fail(fn, f"malformed_result:{b}", f"backend={b}: status/solution/objective inconsistent: {r[1]}", rep)
+            _fail(ctx, fn, f"malformed_result:{b}", f"backend={b}: status/solution/objective inconsistent: {r[1]}", rep)
             ok_all = False
     if not ok_all:
         ctx.case([fn, case], dup or anti, None)
@@ -530,16 +572,26 @@ def judge(ctx, case, out, outs, idx, reply):
     # --- default back-end: must be indistinguishable from an explicit choice -------------------
     for name, o in (("None", df), ("omit", om)):
         if o != rs and o != py:
-            ctx.fail(fn, f"default_differs:{name}", f"backend={name} gives neither the rust nor the python result", rep)
+            _fail(ctx, fn, f"default_differs:{name}", f"backend={name} gives neither the rust nor the python result", rep)
     ctx.count("default_equals_rust" if df == rs else "default_equals_python_only")
     # --- statuses ------------------------------------------------------------------------------
     if py["status"] != rs["status"]:
         klass = "status_differs"
         if fn == "dfs_edges" and (py["status"], rs["status"]) == ("FEASIBLE", "OPTIMAL"):
             klass = "status_differs:dfs_found_feasible_vs_optimal"
-        if fn == "pagerank_edges" and (py["status"], rs["status"]) == ("OPTIMAL", "MAX_ITER"):
-            klass = "status_differs:pagerank_convergence_norm"
-        ctx.fail(fn, klass, f"status python={py['status']} rust={rs['status']}", rep)
+        robust = True
+        if fn == "floyd_warshall" and not case["directed"] and diffw:
+            klass = "status_differs:undirected_multigraph"  # same defect as dist_wrong:undirected_multigraph
+        if fn == "pagerank_edges":
+            # a difference that disappears under a 1e-6 relative change of tol is a rounding straddle of the
+            # convergence test, not a difference in meaning
+            robust = bool(py.get("alt")) and all(a != b for a, b in zip(py["alt"], rs["alt"]))
+            if (py["status"], rs["status"]) == ("OPTIMAL", "MAX_ITER"):
+                klass = "status_differs:pagerank_convergence_norm"
+        if robust:
+            _fail(ctx, fn, klass, f"status python={py['status']} rust={rs['status']}", rep)
+        else:
+            ctx.count("pagerank_status_straddle_ignored")
     # --- verified checker on every output ------------------------------------------------------
     if fn == "pagerank_edges":
         fixed_ok, bound, near_fixed, pair = reply
@@ -549,10 +601,10 @@ def judge(ctx, case, out, outs, idx, reply):
         for b in ("python", "rust", "None"):
             o = res[b][1]
             if o["status"] == "OPTIMAL" and not near_fixed[idx[b]]:
-                ctx.fail(fn, f"scores_off_fixed_point:{b}", f"backend={b}: OPTIMAL scores farther than 10*tol/(1-d) "
+                _fail(ctx, fn, f"scores_off_fixed_point:{b}", f"backend={b}: OPTIMAL scores farther than 10*tol/(1-d) "
                          "from the exact PageRank vector", rep)
         if not pair[idx["python"]][idx["rust"]]:
-            ctx.fail(fn, "scores_differ", "python and rust scores differ by more than 10*tol/(1-d)", rep)
+            _fail(ctx, fn, "scores_differ", "python and rust scores differ by more than 10*tol/(1-d)", rep)
     else:
         acc = {}
         for b in ("python", "rust", "None"):
@@ -573,14 +625,17 @@ def judge(ctx, case, out, outs, idx, reply):
                         f"(first weight per pair kept: {extra.get('solves_first_weight_problem')})")
             if b == "None" and res["None"][1] == res["rust"][1]:
                 continue  # same output as rust: already reported
-            ctx.fail(fn, klass, what, rep)
+            _fail(ctx, fn, klass, what, rep)
         # direct cross-check of the compared observables (implied by obs_unique_* when both are accepted)
         if acc["python"] and acc["rust"]:
             same = observable(case, py) == observable(case, rs)
             ctx.count("r_prop_agree" if same else "r_prop_disagree")
             if not same:
-                ctx.fail(fn, "observable_differs", f"both outputs accepted but observables differ: "
+                _fail(ctx, fn, "observable_differs", f"both outputs accepted but observables differ: "
                          f"{observable(case, py)} vs {observable(case, rs)}", rep)
+    # --- not gating: Result.objective where it is a diagnostic, not part of the answer -----------------
+    if py.get("objraw") != rs.get("objraw") and py["status"] == rs["status"]:
+        ctx.count(f"objective_field_differs_not_gating:{fn}")
     # --- R_trace: mirrors of the Rust traversal kernels ------------------------------------------
     if "raw_order" in res:
         mirror = reply[2] if fn == "bfs_edges" else reply[3]
@@ -619,18 +674,27 @@ def run_cases(ctx, cases):
         raise core.Infra("default back-end is not rust although the extension was built")
     outs = run_pool(impl, cases, timeout=60.0)
     prepared = [prepare(c, o) for c, o in zip(cases, outs)]
-    reqs = [to_request(c, p[0]) for c, p in zip(cases, prepared)]
+    reqs = [to_request(c, p[0], o) for c, o, p in zip(cases, outs, prepared)]
     replies = Driver("Backend").run(reqs, chunks=16)
     for c, o, p, rp in zip(cases, outs, prepared, replies):
         if rp and rp[0] == "error":
             raise core.Infra(f"model rejected request: {rp} for {c}")
         judge(ctx, c, o, p[0], p[1], rp)
+    h = ctx.cov["histogram"]
+    ctx.cov["cert_checked_impl"] = sum(v for k, v in h.items() if k.startswith("checker:") and k.endswith(":accept"))
+    ctx.cov["r_prop_agree"] = h.get("r_prop_agree", 0)
+    ctx.cov["r_trace_agree"] = h.get("r_trace_agree", 0)
+    if any(k.startswith("objective_field_differs_not_gating") for k in h) and \
+            not any("Result.objective" in n for n in ctx.notes):
+        ctx.notes.append("not gating: Result.objective differs between back-ends where it is a diagnostic rather than "
+                         "part of the answer (topological_sort_edges: python len(order) vs rust 0; pagerank_edges: "
+                         "python last max_diff vs rust 0.0); iterations/evaluations are not compared either")
 
 
 def run(ctx, budget):
     ctx.cov["rule"] = RULE
     cases = list(edge_cases()) + [c["case"] for c in core.load_corpus("C12")]
-    per_fn = 160 * budget
+    per_fn = 450 * budget
     for i in range(per_fn):
         for fn in FUNCS:
             cases.append(gen_case(ctx.rng, fn, big=(ctx.tier == "thorough" and i % 3 == 0)))
